@@ -79,3 +79,8 @@ CORPUS += [
     M("n-read-timeout-logged", L, "        return await asyncio.wait_for(self._queue.get(), timeout=timeout)",
       "        try:\n            return await asyncio.wait_for(self._queue.get(), timeout=timeout)\n        except (TimeoutError, asyncio.TimeoutError):\n            _LOGGER.debug(\"Read timed out.\")\n            raise", "S"),
 ]
+# round 6 (.await): a coroutine call whose result is dropped never runs
+CORPUS += [
+    M("connect-not-awaited", L, "        if not self._alive:\n            self._disconnect()\n            await self._connect()", "        if not self._alive:\n            self._disconnect()\n            self._connect()"),
+    M("n-connect-awaited-via-name", L, "        if not self._alive:\n            self._disconnect()\n            await self._connect()", "        if not self._alive:\n            self._disconnect()\n            pending = self._connect()\n            await pending", "S"),
+]
